@@ -42,6 +42,10 @@ type Node struct {
 	neverBoot  bool // pair runs: the special node is silent (never started)
 
 	subscribed      bool
+	madeReq         bool // this instance made (broadcast) a proposal itself: incarnation, height, view of the last one
+	madeReqInc      int
+	madeReqH        uint32
+	madeReqV        byte
 	hidePool        bool // the verified pool reads empty (the notified transaction was evicted)
 	st              *Step
 	crashing        bool
@@ -755,6 +759,9 @@ func (n *Node) cbBroadcast(m dbft.ConsensusPayload[Hash]) {
 	p.sign(n.priv)
 	n.facts.addDelivered(p) // own payloads count as held by the node
 	n.out(Out{Kind: OBroadcast, P: p})
+	if p.T == dbft.PrepareRequestType {
+		n.madeReq, n.madeReqInc, n.madeReqH, n.madeReqV = true, n.inc, p.H, p.V
+	}
 	if n.crashing {
 		return // the process died earlier in this call: this payload never left the node
 	}
